@@ -562,9 +562,43 @@ class HistIO(Hist):
                     self.ev['out'] = 'tolerated:FileExistsError'
                     return None
                 raise
-            return self.Circuit.from_bench_file(path)
+            back = self.Circuit.from_bench_file(path)
+            if rng.random() < 0.4:
+                # the same file is overwritten with another circuit - through a Path object or another spelling of
+                # the same path - and loaded again: the second load must give the second circuit
+                other = self.Circuit.bare_circuit(rng.randint(1, 3), prefix='ov')
+                other.emplace_gate('ov_g', self.GT['NOT'], (other.inputs[0],))
+                other.mark_as_output('ov_g')
+                alt = rng.choice((simfs.SimPath(path), path.replace('/c.bench', '/./c.bench'), path))
+                other.save_to_file(alt)
+                again = self.Circuit.from_bench_file(rng.choice((path, simfs.SimPath(path))))
+                if not (again == other):
+                    self.violate('C11', 'roundtrip', 'reload-after-overwrite', 'loading a file that was overwritten gives the old circuit')
+                else:
+                    self.res.stats.probes.bump('fs:overwrite-then-reload-checked')
+                # and the original again, so that the caller's comparison below is still about `real`
+                real.save_to_file(path)
+                back = self.Circuit.from_bench_file(path)
+            return back
         finally:
             cm.pathlib = saved
+
+    def op_bench_bad_text(self, op, rng):
+        """A malformed bench text (rejected mid-stream), after which the caller goes on parsing other texts."""
+        good = ['INPUT(a)', 'INPUT(b)', 'OUTPUT(s)', 'OUTPUT(k)', 's = XOR(a, b)', 'k = AND(a, b)']
+        bad = rng.choice(('x = FROB(a, b)', 'this line has no equals sign', 'y = AND a, b', 'z = (a, b'))
+        lines = list(good)
+        lines.insert(rng.randint(2, len(lines)), bad)
+        if rng.random() < 0.5:
+            rng.shuffle(lines)
+        text = '\n'.join(lines)
+        self.ev['call'] = f'from_bench_string(<malformed: {bad!r}>)'
+        try:
+            self.Circuit.from_bench_string(text)
+            self.ev['out'] = 'accepted-malformed'
+        except Exception as e:  # noqa
+            self.ev['out'] = f'rejected:{exc_name(e)}'
+            self.res.stats.probes.bump('bench:malformed-text-rejected')
 
     def op_bench_layout(self, op, rng):
         """A model netlist rendered in a seeded layout restricted to the freedoms the
